@@ -840,6 +840,16 @@ Section Programs.
       rewrite IH. cbn [h_rgs with_rgs]. destruct (sel_hops ops l); reflexivity.
   Qed.
 
+  (* a pickled-and-restored, copied or deep-copied handle IS the handle (given the serialiser's round trip) *)
+  Lemma pickle_id : forall (h : handle), pickle ser deser h = Ok h.
+  Proof. intros h. unfold pickle. rewrite ser_roundtrip, with_rgs_same. reflexivity. Qed.
+
+  Lemma copies_id : forall (h : handle) op, op = HPickle \/ op = HCopy \/ op = HDeepcopy ->
+    apply_hop ser deser h op = Ok h.
+  Proof.
+    intros h op H. destruct H as [E|[E|E]]; subst op; cbn [apply_hop]; [apply pickle_id|reflexivity|reflexivity].
+  Qed.
+
   Lemma out_columns_shape : forall D1 D2 (l1 : list D1) (l2 : list D2) c p i o,
     (l1 = [] <-> l2 = []) ->
     out_columns neqb (mk_handle l1 c p i) o = out_columns neqb (mk_handle l2 c p i) o.
